@@ -136,26 +136,34 @@ def build_all(prop: str, tier: str = "quick") -> dict:
         if not props_file.exists():
             res["log"] += f"\nno Props/{prop}.lean"
             return res
-        rc, out = _run(["lake", "build", f"Props.{prop}"], cwd=LEAN)
+        # a property may own several theorem files: Props/C01.lean, Props/C01emit.lean, …
+        extra_files = sorted(f for f in (LEAN / "Props").glob(f"{prop}?*.lean") if f.stem[len(prop)].isalpha())
+        rc, out = _run(["lake", "build", f"Props.{prop}"] + [f"Props.{f.stem}" for f in extra_files], cwd=LEAN)
         res["log"] += "\n" + out[-6000:]
         built = rc == 0
         # forbidden tokens in the property's sources (comments stripped)
-        for f in lean_imports(props_file):
+        closure = {}
+        for pf in [props_file] + extra_files:
+            lean_imports(pf, closure)
+        for f in list(closure):
             code = strip_comments(f.read_text())
             for ln, line in enumerate(code.splitlines(), 1):
                 if FORBIDDEN.search(line):
                     res["forbidden"].append(f"{f.relative_to(LEAN)}:{ln}: {line.strip()[:80]}")
         # theorems of the property file
-        code = strip_comments(props_file.read_text())
-        ns = re.search(r"^namespace\s+([\w.]+)", code, re.M)
-        nsname = ns.group(1) if ns else ""
-        thms = re.findall(r"^theorem\s+([\w.']+)", code, re.M)
+        thms, full_names, imports = [], {}, []
+        for pf in [props_file] + extra_files:
+            code = strip_comments(pf.read_text())
+            ns = re.search(r"^namespace\s+([\w.]+)", code, re.M)
+            nsname = ns.group(1) if ns else ""
+            imports.append(f"import Props.{pf.stem}\n")
+            for t in re.findall(r"^theorem\s+([\w.']+)", code, re.M):
+                thms.append(t)
+                full_names[t] = f"{nsname}.{t}"
         res["theorems"] = thms
         if built and thms:
             audit = LEAN / ".lake" / f"Audit_{prop}.lean"
-            audit.write_text(
-                f"import Props.{prop}\n" + "".join(f"#print axioms {nsname}.{t}\n" for t in thms)
-            )
+            audit.write_text("".join(imports) + "".join(f"#print axioms {full_names[t]}\n" for t in thms))
             rc, out = _run(["lake", "env", "lean", str(audit)], cwd=LEAN)
             res["log"] += "\n" + out[-3000:]
             cur = None
@@ -167,7 +175,7 @@ def build_all(prop: str, tier: str = "quick") -> dict:
                 axs = set(a.strip() for a in (m.group(3) or "").split(",") if a.strip())
                 axioms[name] = axs
             for t in thms:
-                full = f"{nsname}.{t}"
+                full = full_names[t]
                 if full in axioms and axioms[full] <= ALLOWED_AXIOMS:
                     res["discharged"].append(t)
                 else:
